@@ -27,7 +27,7 @@ def series_wf(st, m, min_time=0):
     """clock and storage shape after the first tick: time >= min_time, the eight series are distinct lists longer than time"""
     t = st.read(m, "time").term
     refs = series_refs(st, m)
-    cs = [("clock>=%d" % min_time, t >= min_time), ("series-distinct", z3.Distinct(*refs))]
+    cs = [("clock>=%d" % min_time, t >= min_time), ("series-distinct", z3.Distinct(*refs)), ("series-allocated", z3.And(*[st.is_alloc(r) for r in refs]))]
     for (n, ety), r in zip(SERIES, refs):
         cs.append((f"len({n})>time", st.length(r, ety) > t))
     return cs
@@ -114,6 +114,16 @@ def book_inv(st, book, tag=""):
               z3.ForAll([k], z3.Implies(bucket_dom(st, book, k), bucket_list(st, book, k) != q)),
               z3.ForAll([k, k2], z3.Implies(z3.And(bucket_dom(st, book, k), bucket_dom(st, book, k2), k != k2), bucket_list(st, book, k) != bucket_list(st, book, k2)))))]
     return [(tag + l, f) for l, f in cs]
+
+
+def book_inv_step(st0, st1, book, tag="BookInv' "):
+    """BookInv after a book operation, plus the separation fact every caller needs: a bucket list after the operation is the
+    bucket list that was stored under the same key before, or an object that did not exist before the operation"""
+    k = z3.Const("k_bis", z3.IntSort())
+    return book_inv(st1, book, tag) + [
+        (tag + "B7 bucket lists are the previous ones (same key) or new objects",
+         z3.ForAll([k], z3.Implies(bucket_dom(st1, book, k), z3.Or(z3.And(bucket_dom(st0, book, k), bucket_list(st1, book, k) == bucket_list(st0, book, k)),
+                                                                    z3.Not(st0.is_alloc(bucket_list(st1, book, k)))))))]
 
 
 def heap_order_hook(ex, st, q, popped, op):
